@@ -21,6 +21,7 @@
 //! Nothing in here influences the generated regular expression.
 
 use crate::grapheme::Grapheme;
+use std::cell::Cell;
 use std::cell::RefCell;
 
 /// A snapshot of one edge label / cluster element.
@@ -58,7 +59,20 @@ thread_local! {
     static LOG: RefCell<Vec<Event>> = const { RefCell::new(Vec::new()) };
 }
 
+thread_local! {
+    static OBSERVER: Cell<Option<fn(&Event)>> = const { Cell::new(None) };
+}
+
+/// Installs (or removes) a function that sees every event of the current thread at the moment
+/// it is recorded, i.e. before the next pipeline stage starts.
+pub fn set_observer(observer: Option<fn(&Event)>) {
+    OBSERVER.with(|o| o.set(observer));
+}
+
 pub fn record(event: Event) {
+    if let Some(observer) = OBSERVER.with(|o| o.get()) {
+        observer(&event);
+    }
     LOG.with(|log| log.borrow_mut().push(event));
 }
 
